@@ -101,14 +101,6 @@ def run_mapping(
     if 'tmp_dir' not in config:
         raise RuntimeError("did not specify tmp_dir")
 
-    if config['tmp_dir'] is not None:
-        timestamp = get_timestamp().replace('-', '')
-        tmp_dir = tempfile.mkdtemp(
-            dir=config['tmp_dir'],
-            prefix=f'cell_type_mapper_{timestamp}_')
-    else:
-        tmp_dir = None
-
     if output_path is not None:
         output_path = pathlib.Path(output_path)
 
@@ -119,6 +111,8 @@ def run_mapping(
         log_path = pathlib.Path(log_path)
 
     # check validity of output_path and log_path
+    # (before any scratch space is created, so that a failure
+    # here leaves nothing behind)
     for pth in (output_path, log_path):
         if pth is not None:
             if not pth.exists():
@@ -130,6 +124,16 @@ def run_mapping(
                     raise RuntimeError(
                         "unable to write to "
                         f"{pth.resolve().absolute()}")
+
+    if config['tmp_dir'] is not None:
+        timestamp = get_timestamp().replace('-', '')
+        tmp_dir = tempfile.mkdtemp(
+            dir=config['tmp_dir'],
+            prefix=f'cell_type_mapper_{timestamp}_')
+    else:
+        tmp_dir = None
+
+    tmp_result_dir = None
 
     try:
         if config['tmp_dir'] is not None:
@@ -179,7 +183,6 @@ def run_mapping(
                         },
                         indent=2))
 
-        _clean_up(tmp_result_dir)
         log.info("MAPPING FROM SPECIFIED MARKERS RAN SUCCESSFULLY")
     except Exception:
         traceback_msg = "an ERROR occurred ===="
@@ -187,6 +190,7 @@ def run_mapping(
         log.add_msg(traceback_msg)
         raise
     finally:
+        _clean_up(tmp_result_dir)
         _clean_up(tmp_dir)
         log.info("CLEANING UP")
         if log_path is not None:
